@@ -42,7 +42,7 @@ def wave_arg(f):
     form = f['wform']
     if form == 'none':
         return None
-    vals = np.array(fl(f['wvals']))
+    vals = np.array(fl(f.get('wvals', f['pts'])))
     if form == 'array':
         return vals
     if form == 'list':
@@ -87,7 +87,7 @@ def impl_call(case):
         return res
     out['from'] = guarded(run_from)
     nt = len(r[4])
-    if nt <= ANALYTIC_SAFE or nt >= ANALYTIC_DEEP:
+    if case.get('ana', nt <= ANALYTIC_SAFE):
         def run_ana():
             m = ff.analytical_model_from_fft(*args)
             grid = ff._simplified_wavelength(r[0], r[1], r[2])
@@ -172,6 +172,17 @@ def median_step(pts):
     return d[m // 2] if m % 2 else (d[m // 2 - 1] + d[m // 2]) / 2
 
 
+def fail(rep, sig, msg, case, out):
+    """record an oracle failure; the (possibly large) case and outcome are kept for the first occurrences of a
+    signature only (the report uses the first one)"""
+    seen = rep.extra.setdefault('oracle_failure_counts', {})
+    seen[sig] = seen.get(sig, 0) + 1
+    if seen[sig] <= 3:
+        rep.oracle_fail(sig, msg, case, out)
+    else:
+        rep.oracle_fail(sig, msg, None, None)
+
+
 def oracle(rep, case, out):
     if case['op'] == 'fft_table':
         return oracle_table(rep, case, out)
@@ -179,51 +190,51 @@ def oracle(rep, case, out):
     n, peak = len(pts), max(vals)
     to = out['to']
     if 'err' in to:
-        rep.oracle_fail('filter_to_fft:valid-input:%s' % to['err'], 'filter_to_fft failed on a valid bandpass: %s' % to, case, out)
+        fail(rep, 'filter_to_fft:valid-input:%s' % to['err'], 'filter_to_fft failed on a valid bandpass: %s' % to, case, out)
         return
     t = to['ok']
     # -- reported parameters
     if t['n'] != n:
-        rep.oracle_fail('filter_to_fft:reported:n_lambda', 'n_lambda %r for %d sampled wavelengths' % (t['n'], n), case, out)
+        fail(rep, 'filter_to_fft:reported:n_lambda', 'n_lambda %r for %d sampled wavelengths' % (t['n'], n), case, out)
     if t['lam0'] != min(pts):
-        rep.oracle_fail('filter_to_fft:reported:lambda_0', 'lambda_0 %r, smallest wavelength %r' % (t['lam0'], min(pts)), case, out)
+        fail(rep, 'filter_to_fft:reported:lambda_0', 'lambda_0 %r, smallest wavelength %r' % (t['lam0'], min(pts)), case, out)
     ms = median_step(pts)
     if not abs(t['delta'] - ms) <= 1e-12 * abs(ms):
-        rep.oracle_fail('filter_to_fft:reported:delta_lambda', 'delta_lambda %r, median step %r' % (t['delta'], ms), case, out)
+        fail(rep, 'filter_to_fft:reported:delta_lambda', 'delta_lambda %r, median step %r' % (t['delta'], ms), case, out)
     if case['grid'] == 'lattice' and t['delta'] != unq(case['step']):
-        rep.oracle_fail('filter_to_fft:reported:delta_lambda', 'delta_lambda %r on a regular grid of step %s' % (t['delta'], case['step']), case, out)
+        fail(rep, 'filter_to_fft:reported:delta_lambda', 'delta_lambda %r on a regular grid of step %s' % (t['delta'], case['step']), case, out)
     if t['tr_max'] != peak:
-        rep.oracle_fail('filter_to_fft:reported:tr_max', 'tr_max %r, peak of the sampled curve %r' % (t['tr_max'], peak), case, out)
+        fail(rep, 'filter_to_fft:reported:tr_max', 'tr_max %r, peak of the sampled curve %r' % (t['tr_max'], peak), case, out)
     N = out['N']
     if N not in (n + 1, n + 2):
-        rep.oracle_fail('_simplified_wavelength:count', 'simplified grid has %d points for n_lambda=%d' % (N, n), case, out)
+        fail(rep, '_simplified_wavelength:count', 'simplified grid has %d points for n_lambda=%d' % (N, n), case, out)
     want = min(case['n_terms'], N)
     if len(t['re']) != want:
-        rep.oracle_fail('filter_to_fft:term-count', '%d parameters kept, asked for %d of %d' % (len(t['re']), case['n_terms'], N), case, out)
+        fail(rep, 'filter_to_fft:term-count', '%d parameters kept, asked for %d of %d' % (len(t['re']), case['n_terms'], N), case, out)
     const = is_constant(case) or len(t['re']) <= 1
     # -- reconstruction
     frm = out['from']
     if 'err' in frm:
         if frm['err'] == 'NaN' and const:
-            rep.oracle_fail(SIG_FROM_CONST, 'the reconstruction does not span [0, peak]: all-NaN table '
+            fail(rep, SIG_FROM_CONST, 'the reconstruction does not span [0, peak]: all-NaN table '
                             '(one retained term / constant curve: 0/0 in the rescaling)', case, out)
         else:
-            rep.oracle_fail('filter_from_fft:span:%s' % frm['err'], 'filter_from_fft failed / produced NaN: %s' % frm, case, out)
+            fail(rep, 'filter_from_fft:span:%s' % frm['err'], 'filter_from_fft failed / produced NaN: %s' % frm, case, out)
     elif not is_constant(case):
         f = frm['ok']
         lo, hi = min(f['vals']), max(f['vals'])
         if not (abs(lo) <= 1e-9 * peak and abs(hi - peak) <= 1e-9 * peak):
-            rep.oracle_fail('filter_from_fft:span:value', 'reconstruction spans [%r, %r], peak is %r' % (lo, hi, peak), case, out)
+            fail(rep, 'filter_from_fft:span:value', 'reconstruction spans [%r, %r], peak is %r' % (lo, hi, peak), case, out)
         if len(f['pts']) != N or any(abs(a - (t['lam0'] + k * t['delta'])) > 1e-9 * abs(a) for k, a in enumerate(f['pts'])):
-            rep.oracle_fail('filter_from_fft:grid', 'reconstruction is not tabulated on lambda_0 + k*delta_lambda', case, out)
+            fail(rep, 'filter_from_fft:grid', 'reconstruction is not tabulated on lambda_0 + k*delta_lambda', case, out)
         if case['regular'] and case['zero_min'] and len(t['re']) >= N:
             err = max(abs(a - b) for a, b in zip(f['at_wl'], vals))
             if not err <= OTOL * peak:
-                rep.oracle_fail('filter_from_fft:exact-inverse:value',
+                fail(rep, 'filter_from_fft:exact-inverse:value',
                                 'all %d terms kept, regular grid, zero minimum: reconstruction differs from the '
                                 'input by %.3g at a grid point (peak %r)' % (N, err, peak), case, out)
             if not abs(max(f['at_wl']) - peak) <= OTOL * peak:
-                rep.oracle_fail('filter_from_fft:exact-inverse:peak', 'peak of the reconstruction %r, reported %r'
+                fail(rep, 'filter_from_fft:exact-inverse:peak', 'peak of the reconstruction %r, reported %r'
                                 % (max(f['at_wl']), peak), case, out)
     # -- analytic model on the full grid
     ana = out.get('analytic')
@@ -231,18 +242,18 @@ def oracle(rep, case, out):
         return
     if 'err' in ana:
         if ana['err'] == 'NaN' and const:
-            rep.oracle_fail(SIG_ANA_CONST, 'the analytic model is all-NaN on the full grid (one retained term / '
+            fail(rep, SIG_ANA_CONST, 'the analytic model is all-NaN on the full grid (one retained term / '
                             'constant curve: 0/0 in the rescaling)', case, out)
         elif ana['err'] == 'RecursionError' and len(t['re']) >= ANALYTIC_DEEP:
-            rep.oracle_fail(SIG_ANA_DEEP, 'the analytic model with %d terms cannot be evaluated: RecursionError'
+            fail(rep, SIG_ANA_DEEP, 'the analytic model with %d terms cannot be evaluated: RecursionError'
                             % len(t['re']), case, out)
         else:
-            rep.oracle_fail('analytical_model_from_fft:full-grid:%s' % ana['err'], 'analytic model failed: %s' % ana, case, out)
+            fail(rep, 'analytical_model_from_fft:full-grid:%s' % ana['err'], 'analytic model failed: %s' % ana, case, out)
     elif 'ok' in frm and not is_constant(case):
         a, b = ana['ok'], frm['ok']['vals']
         err = max(abs(x - y) for x, y in zip(a, b)) if len(a) == len(b) else math.inf
         if not err <= OTOL * peak:
-            rep.oracle_fail('analytical_model_from_fft:vs-tabulated:value',
+            fail(rep, 'analytical_model_from_fft:vs-tabulated:value',
                             'analytic model differs from the tabulated reconstruction by %.3g on the full grid (peak %r)'
                             % (err, peak), case, out)
 
@@ -253,19 +264,19 @@ def oracle_table(rep, case, out):
     ragged = any('ok' in s and len(s['ok']['re']) != case['n_terms'] for s in singles)
     if 'err' in t:
         if not ragged:
-            rep.oracle_fail('filters_to_fft_table:valid-input:%s' % t['err'], 'table construction failed: %s' % t, case, out)
+            fail(rep, 'filters_to_fft_table:valid-input:%s' % t['err'], 'table construction failed: %s' % t, case, out)
         return
     tt = t['ok']
     names = [f['name'] for f in case['filters']]
     if [r['name'] for r in tt['rows']] != names:
-        rep.oracle_fail('filters_to_fft_table:rows:names', 'rows %r for filters %r' % ([r['name'] for r in tt['rows']], names), case, out)
+        fail(rep, 'filters_to_fft_table:rows:names', 'rows %r for filters %r' % ([r['name'] for r in tt['rows']], names), case, out)
         return
     want_cols = ['filter', 'n_lambda', 'lambda_0', 'delta_lambda', 'tr_max'] + ['fft_%d' % i for i in range(case['n_terms'])]
     if tt['colnames'] != want_cols or tt['units'] != ['Angstrom', 'Angstrom']:
-        rep.oracle_fail('filters_to_fft_table:rows:columns', 'columns %r units %r' % (tt['colnames'], tt['units']), case, out)
+        fail(rep, 'filters_to_fft_table:rows:columns', 'columns %r units %r' % (tt['colnames'], tt['units']), case, out)
     for r, s in zip(tt['rows'], singles):
         if 'ok' not in s or r['row'] != s['ok']:
-            rep.oracle_fail('filters_to_fft_table:rows:values', 'row of %s is %r, filter_to_fft gives %r' % (r['name'], r['row'], s), case, out)
+            fail(rep, 'filters_to_fft_table:rows:values', 'row of %s is %r, filter_to_fft gives %r' % (r['name'], r['row'], s), case, out)
             return
 
 
@@ -335,8 +346,10 @@ def gen_filter(rng, n, grid=None, curve=None, wform=None):
         pts = [float(x) for x in (np.array(wvals) * unit).to_value(u.AA)]    # astropy's own conversion (library)
     else:
         pts = wvals
-    f.update({'pts': qs(pts), 'vals': qs(gen_curve(rng, n, curve)), 'wform': wform, 'wvals': qs(wvals),
+    f.update({'pts': qs(pts), 'vals': qs(gen_curve(rng, n, curve)), 'wform': wform,
               'regular': grid in ('lattice', 'float'), 'zero_min': curve == 'zero_min'})
+    if wform in UNIT_FORMS:
+        f['wvals'] = qs(wvals)          # values in the unit; otherwise the wavelengths are pts themselves
     return f
 
 
@@ -346,7 +359,7 @@ def pick_n(rng, thorough):
     return int(round(math.exp(rng.uniform(math.log(65), math.log(2000)))))
 
 
-def gen_case(rng, thorough, n=None, terms=None, **kw):
+def gen_case(rng, thorough, n=None, terms=None, deep=False, **kw):
     n = n or pick_n(rng, thorough)
     c = gen_filter(rng, n, **kw)
     c['op'] = 'fft_case'
@@ -362,6 +375,11 @@ def gen_case(rng, thorough, n=None, terms=None, **kw):
     c['n_terms'] = nt
     c['tclass'] = tclass
     c['from_form'] = rng.choice(['quantity', 'float'])
+    # the analytic model costs ~n_terms^2 to build and n_terms*n to evaluate: always on small grids and for few
+    # terms, sampled (30%) up to ANALYTIC_SAFE terms on large grids, never in the band where the outcome depends
+    # on the interpreter's stack depth; beyond ANALYTIC_DEEP only in the dedicated cases (deep=True)
+    eff = min(nt, n + 1)
+    c['ana'] = bool(deep) or eff <= 24 or (eff <= ANALYTIC_SAFE and (n <= MODEL_NMAX or rng.random() < 0.3))
     return c
 
 
@@ -379,10 +397,11 @@ def gen_table_case(rng, thorough):
 
 
 def gen_cases(rng, thorough):
-    cases = []
-    nrt = 19000 if thorough else 540
-    for _ in range(nrt):
-        cases.append(gen_case(rng, thorough))
+    """generator: the dedicated cases first, then the random bulk"""
+    # far more terms than the analytic model's nesting allows (first: they are the slowest calls)
+    for _ in range(4 if thorough else 1):
+        n = rng.randint(ANALYTIC_DEEP, ANALYTIC_DEEP + 40)
+        yield gen_case(rng, thorough, n=n, terms='full', deep=True)
     # every term count 1..n+2 of one small grid per grid kind (complete enumeration of the term counts)
     for grid in ('lattice', 'float', 'irregular'):
         n = rng.randint(8, 16)
@@ -391,15 +410,12 @@ def gen_cases(rng, thorough):
             c = dict(base)
             c['n_terms'] = nt
             c['tclass'] = 'one' if nt == 1 else 'full' if nt >= n + 2 else 'partial'
-            cases.append(c)
-    # far more terms than the analytic model's nesting allows
-    for _ in range(4 if thorough else 1):
-        n = rng.randint(ANALYTIC_DEEP + 50, 900)
-        c = gen_case(rng, thorough, n=n, terms='full')
-        cases.append(c)
+            c['ana'] = True
+            yield c
     for _ in range(800 if thorough else 40):
-        cases.append(gen_table_case(rng, thorough))
-    return cases
+        yield gen_table_case(rng, thorough)
+    for _ in range(19000 if thorough else 540):
+        yield gen_case(rng, thorough)
 
 
 # ------------------------------------------------------------------ the loop
@@ -496,8 +512,9 @@ RULE = ('bandpass tables (Empirical1D) of n points, n uniform in 8..64 (quick; t
         'wavelengths handed over as None (waveset) / ndarray / list / Quantity in Angstrom, nm, micron; n_terms: 1 (7%%), '
         '>= grid length i.e. every term (28%%), uniform 2..n+1 (45%%), 2..12 (20%%), plus every term count 1..n+2 of one '
         'small grid per grid kind; filter_from_fft / analytical_model_from_fft called with Quantities or plain floats; '
-        'analytic model evaluated for <= %d terms and for >= %d terms (not in between: the outcome there depends on the '
-        'interpreter stack depth); filters_to_fft_table on 1-4 such filters incl. ragged n_terms > grid length. Model '
+        'analytic model evaluated for <= %d terms (always on grids <= 64 points or <= 24 terms, for 30%% of the larger '
+        'ones) and in dedicated cases of >= %d terms (not in between: the outcome there depends on the interpreter stack '
+        'depth); filters_to_fft_table on 1-4 such filters incl. ragged n_terms > grid length. Model '
         'comparison (K = Q, Float sin/cos) for n <= %d, tolerance %g of the scale; oracle alone above. Non-trivial: '
         'non-constant curve and more than one retained term.' % (ANALYTIC_SAFE, ANALYTIC_DEEP, MODEL_NMAX, TOL))
 
@@ -505,9 +522,15 @@ RULE = ('bandpass tables (Empirical1D) of n points, n uniform in 8..64 (quick; t
 def run(rep):
     thorough = rep.tier == 'thorough'
     rng = rep.rng('c20')
-    cases = core.load_corpus('C20') + gen_cases(rng, thorough)
     rep.rule = RULE
-    process(rep, cases)
+    batch = core.load_corpus('C20')
+    for c in gen_cases(rng, thorough):          # in batches: bounded memory (a 2000-point case is ~0.3 MB)
+        batch.append(c)
+        if len(batch) >= 2500:
+            process(rep, batch)
+            batch = []
+    if batch:
+        process(rep, batch)
     rep.samples = [{k: (v if not isinstance(v, list) or len(v) <= 12 else v[:12] + ['...']) for k, v in s.items()}
                    if isinstance(s, dict) else s for s in rep.samples]
 
